@@ -856,6 +856,20 @@ func runFraming(h *H, cuts bool) {
 				}
 				one([]byte(cmds[0].render()+cmds[1].render()), cmds, litPlus, true, -1, false, "corpus-append-limit")
 			}
+			// the same before authentication: the refusal must not depend on the connection state
+			for _, form := range []argForm{formSync, formNonSync} {
+				for _, big := range []int{104857601, 4294967296} {
+					cmds := []fCmd{
+						{Tag: newTag(), Name: "APPEND", Args: []fArg{{Val: "box", Form: formAtom}, {Val: "", Form: form, Announce: big, Omit: true}}},
+						{Tag: newTag(), Name: "NOOP"},
+					}
+					s := cmds[0].render() + cmds[1].render()
+					if form == formNonSync {
+						s = strings.Replace(cmds[0].render(), "\r\n\r\n", "\r\n", 1) + cmds[1].render()
+					}
+					one([]byte(s), cmds, litPlus, false, -1, false, "corpus-append-limit-unauthenticated")
+				}
+			}
 			for _, form := range []argForm{formSync, formNonSync} {
 				cmds := []fCmd{
 					{Tag: newTag(), Name: "APPEND", Args: []fArg{{Val: "box", Form: formAtom}, {Val: "", Form: form, Announce: 104857601, Omit: true}}},
@@ -939,7 +953,7 @@ func runFraming(h *H, cuts bool) {
 			// forms the server itself accepts as a literal header (with and without SP before CRLF):
 			// the announced octets are command-like and must not be executed
 			octets := "Z7 DELETE Victim\r\nZ8 CREATE fromoctets\r\n"
-			for _, nm := range []string{"NOOP", "FROB", "DELETE box", "SELECT (", "CREATE \"a\""} {
+			for _, nm := range []string{"NOOP", "FROB", "DELETE box", "SELECT (", "CREATE \"a\"", "UID", "UID FROB", "UID FETCH", "uid", "STARTTLS", "LOGOUT x", "IDLE x", "ENABLE", "AUTHENTICATE"} {
 				for _, hdr := range []string{"{%d+}", "{%d+} ", "x{%d+} ", "{0%d+} "} {
 					cmds := []fCmd{login(), {Tag: newTag(), Name: nm, Trailer: " " + fmt.Sprintf(hdr, len(octets)), After: octets}, {Tag: newTag(), Name: "NOOP"}}
 					runCmds(cmds, litPlus, false, "nonsync-header-in-discarded-line")
@@ -1110,6 +1124,41 @@ func runFraming(h *H, cuts bool) {
 			if t.Kind == 1 {
 				h.Fail("append-limit-not-enforced", fmt.Sprintf("APPEND {%s} (above the append limit) was answered with a continuation request", big), map[string]interface{}{"stream": string(stream)})
 			}
+		}
+	}
+
+	// ... and without waiting for the payload, in every connection state: the announced octets
+	// never arrive in full here, the tagged refusal must come anyway
+	for _, login := range []bool{false, true} {
+		for _, hdr := range []string{"{104857601+}", "{314572800+}", "{104857601}"} {
+			ts := getServer(true, false)
+			rc := ts.dial()
+			rc.greeting()
+			if login {
+				rc.cmd("LOGIN u p")
+			}
+			desc := map[string]interface{}{"logged_in": login, "stream": "Q1 APPEND box " + hdr + "\r\n + 65536 octets, connection kept open"}
+			h.InFlight(desc)
+			io.WriteString(rc.c, "Q1 APPEND box "+hdr+"\r\n")
+			if strings.HasSuffix(hdr, "+}") {
+				io.WriteString(rc.c, strings.Repeat("x", 65536))
+			}
+			answered := false
+			for i := 0; i < 4; i++ {
+				l, err := rc.readLine(3 * time.Second)
+				if strings.HasPrefix(l, "Q1 ") {
+					answered = true
+				}
+				if err != nil || answered {
+					break
+				}
+			}
+			if !answered {
+				h.Fail("append-payload-awaited", fmt.Sprintf("APPEND %s (above the append limit, logged in: %v): no tagged refusal within 3 s while the payload has not arrived in full", hdr, login), desc)
+			}
+			rc.Close()
+			h.Eval(fmt.Sprintf("append-awaited|%v|%s", login, hdr))
+			h.Hist("append_over_limit_payload_withheld")
 		}
 	}
 
